@@ -44,6 +44,11 @@ def rule_l1(ctx: Ctx, m: SharedModel) -> None:
             ctx.ok("C07-L1", s.fi.where, f"write `{s.target}.{s.op}` on {s.kind}: {how}", s.stmt, s.fi)
         else:
             path = m.unlocked_path(s.fi)
+            top = m.repo.funcs.get(path[0]) if path else None
+            if top is not None and not m.callers.get(top.where) and top.name.startswith("_") and not top.name.startswith("__"):
+                # a private function nobody calls directly: it is reached through a table / getattr / a callback – the lock
+                # context of that dynamic call is not known
+                raise AnalysisError(f"{top.where}: writes the shared cache but no direct call of it was found (dynamic dispatch?); whether the lock is held is not decided")
             ctx.violation("C07-L1", s.fi, s.stmt, f"the shared level cache is mutated ({s.target} {s.op}) without the class lock held; unlocked path: {' -> '.join(p.split(':')[-1] for p in path)}", path=path)
     for fi, w, txt in m.bad_lock_exprs:
         ctx.violation("C07-L2", fi, w, f"`with {txt}` creates a fresh lock for each entry: it excludes nobody")
@@ -127,6 +132,11 @@ def rule_l4(ctx: Ctx, m: SharedModel) -> None:
                 continue
             if m.is_protected(fi, node):
                 continue
+            top_fi = fi
+            while top_fi.parent is not None:
+                top_fi = top_fi.parent
+            if not m.callers.get(top_fi.where) and top_fi.name.startswith("_") and not top_fi.name.startswith("__"):
+                raise AnalysisError(f"{top_fi.where}: touches the shared cache but no direct call of it was found (dynamic dispatch?); whether the lock is held is not decided")
             found += 1
             # must be ``self.cache[idx]`` (load) dominated by a locked ensure call with the same idx
             parent = _parent(fi.node, node)
